@@ -168,6 +168,10 @@ def tt_dimscheck(  # noqa: PLR0912
                 f"but, {exclude_dims[invalid_indices]} were out of valid range"
                 f"[0,{N}]"
             )
+        if len(np.unique(exclude_dims)) != len(exclude_dims):
+            raise ValueError(
+                f"Exclude dims provided: {exclude_dims} contain repeated entries"
+            )
         dim_array = np.setdiff1d(np.arange(0, N), exclude_dims)
 
     # Fix empty case
